@@ -61,6 +61,8 @@ def gen_cases(tier, seed):
     quick = tier == "quick"
     kinds = list(D.NAME_KINDS)
     ns = len(SCHEMES)
+    for i in range(160 if quick else 1500):
+        yield {"kind": "kernel", "seed": seed * 7907 + i, "tables": 6, "vectors": 5, "nmax": 7}
     idx = 0
     for d in D.all_datasets(3, 2 if quick else 3):
         k = 2 if quick else 1
@@ -83,8 +85,6 @@ def gen_cases(tier, seed):
             continue
         seen.add((kind, repr(d)))
         yield {"kind": "api", "rankings": d, "namekind": kind, "schemes": sch}
-    for i in range(160 if quick else 1500):
-        yield {"kind": "kernel", "seed": seed * 7907 + i, "tables": 6, "vectors": 5, "nmax": 7}
 
 
 # ---------------------------------------------------------------------------------------------------------------
@@ -342,7 +342,9 @@ def check_kernel(case):
                     elif min(d_new.values()) < -THRESH - EPS:
                         fail("C08.search.add", "_search_to_add_bucket (%s)" % mode, result=-1,
                              oracle_deltas={str(k): v for k, v in d_new.items()}, **here)
-                # the sweep
+                # the sweep (not attempted once a kernel is known to be wrong: it might never return)
+                if fails:
+                    continue
                 evals += 1
                 r = np.array(vec, dtype=np.int32)
                 if mode == "compiled":
@@ -459,6 +461,16 @@ def guarded(fn, case, prop, site):
     if kind == "exc":
         raise RuntimeError("harness exception in guarded child:\n" + out)
     return out
+
+
+def setup():
+    """Once per worker: import (and let numba compile) everything, so that the forked children start warm."""
+    from bounded import adapt  # noqa: F401
+    import numpy  # noqa: F401
+    import corankco.algorithms.bioconsert.bioconsert  # noqa: F401
+    for config in CONFIGS:
+        make_alg(config)
+    documented_refusal(ValueError())
 
 
 def check_case(case):
